@@ -21,6 +21,7 @@ for p in "$@"; do
   log=$S/log_$p.txt
   VERIF_REPO=$S/repo timeout 2700 ./check $p > $log 2>&1; rc=$?
   t1=$(date +%s)
+  if [ $rc -ne 0 ]; then mkdir -p /verif/.work/iso_logs; cp $log /verif/.work/iso_logs/$(basename $patch .diff)_$(basename $(dirname $patch))_$p.log; cp $S/verif/replays/${p}_* /verif/.work/iso_logs/ 2>/dev/null; fi
   v=$(grep "^VIOLATION" $log | head -3 | sed 's/^VIOLATION //; s#replay=replays/##; s/property=C[0-9]* //' | tr '\n' ';')
   k=$(grep -c "^KNOWN-FINDING" $log)
   sig=$(python3 - "$S/verif/evidence/$p.json" <<'EOF'
